@@ -3,7 +3,9 @@ plus the property oracle (numpy complex128 arithmetic on the decoded operands) e
 
 EXACT tier: small Gaussian integers (float64/float32 arithmetic is exact), model over Int, compared exactly.
 TOLERANCE tier: Float model for division / inverse / abs / norm / sigmoid (and a sample of the ring operations).
-MALFORMED stream: shape mismatches, wrong ranks, aliasing `out=` buffers: error KINDS compared exactly.
+MALFORMED stream: shape mismatches, wrong ranks, non-complex operands, aliasing `out=` buffers: compared as REJECTED / ACCEPTED only (the
+property says "rejects ... with an error": which exception type is raised is not constrained; the kinds are informational counters
+`error[fn]=K`, and the kind-level theorems bind the model only).
 
 Round-2 dimensions (orthogonal to the above, applied with some probability to every case):
 LAYOUT   every operand and every `out=` buffer may be a non-contiguous VIEW with the same logical values (permuted axes,
@@ -53,7 +55,7 @@ RULE = ("case = (function, operand shapes incl. the leading complex axis, operan
         "comparison), EDGE of the double range for the same functions (components in [MAX/4, MAX] incl. DBL_MAX, in [MIN, 4 MIN] incl. the smallest "
         "normal number, sub-normal operands, the decades 1e+-(300..308); divisors with equal / one negligible / one zero component; quotients of "
         "order one, within a factor 4 of overflow (|q| in [MAX/4, MAX/2]) and of underflow; numerator at the edge over an ordinary divisor; sigmoid "
-        "with Re z in [-746, -690]; expected value by exact rational arithmetic, results compared relative to their own size down to 1e-310). Einsum equations: explicit, implicit-output and ellipsis forms. non-trivial iff every complex operand has an entry with non-zero real AND imaginary part (so a sign or "
+        "with Re z in [-746, -690]; expected value by exact rational arithmetic, results compared relative to their own size down to 1e-310). Einsum equations: explicit, implicit-output and ellipsis forms. Call forms (per-case fseed): einsum real_part / imag_part as every kind of flag object (True/False, 1/0, numpy.bool_, numpy comparison result, 0-dim bool array / tensor), positionally or by keyword in either order or left to the default; out= positionally / by keyword / omitted; make_complex and sigmoid with the second operand by keyword or omitted (y=None). cplx.I as operand of every function that takes a complex scalar. Result dtypes are NOT compared (only: an accepted out= buffer keeps its dtype); exception types are NOT compared (rejected / accepted only). non-trivial iff every complex operand has an entry with non-zero real AND imaginary part (so a sign or "
         "conjugation error changes the result) and the call is not a pure error case; distinct by hash of the whole case")
 THEOREMS = {
     "make_complex": "C15_make_complex, C15_make_complex_none, C15_rejects_make_complex",
@@ -69,19 +71,19 @@ THEOREMS = {
               "C15_matmul_batched_mat_vec, C15_matmul_vec_batched, C15_matmul_is_matrix_product, C15_matmul_is_mulVec, C15_rejects_matmul",
     "inner_prod": "C15_inner_prod_vec, C15_inner_prod_scalar, C15_inner_prod_is_star_dot, C15_rejects_inner_prod",
     "outer_prod": "C15_outer_prod, C15_outer_prod_is_vecMulVec, C15_rejects_outer_prod",
-    "einsum": "C15_einsum, C15_einsum_complex, C15_einsum_real_part, C15_einsum_imag_part, C15_einsum_flags, C15_einsum_reads_valid, "
+    "einsum": "C15_einsum, C15_einsum_complex, C15_einsum_real_part, C15_einsum_imag_part, C15_einsum_flags, C15_einsum_flag, C15_einsum_reads_valid, "
               "C15_allIdx_spec, C15_sumLabels_spec, C15_einsum_ib_ibg, C15_rejects_einsum, C15_einsum_string, "
               "C15_einsum_explicit_equation, C15_einsum_implicit_output, C15_einsum_ellipsis_spec, C15_einsum_ellipsis_alignment, "
               "C15_einsum_implicit_matmul, C15_einsum_ellipsis_batched",
     "conjugate": "C15_conjugate_low_rank, C15_conjugate_transpose, C15_conjugate_is_conjTranspose",
-    "conj": "C15_conj",
+    "conj": "C15_conj, C15_rejects_conj, C15_rejects_not_complex_planes",
     "kronecker_prod": "C15_kronecker_prod, C15_kronecker_is_kronecker, C15_rejects_kronecker_prod",
     "norm_sqr": "C15_norm_sqr",
-    "elementwise_division": "C15_elementwise_division, C15_rejects_elementwise_division, C15_scaled_operand_range",
-    "absolute_value": "C15_absolute_value, C15_hypot",
+    "elementwise_division": "C15_elementwise_division, C15_rejects_elementwise_division, C15_scaled_operand_range, C15_rejects_field_not_complex",
+    "absolute_value": "C15_absolute_value, C15_hypot, C15_rejects_field_not_complex",
     "sigmoid": "C15_sigmoid, C15_rejects_sigmoid, C15_sigmoid_exp_bounded",
     "scalar_divide": "C15_scalar_divide, C15_scaled_operand_range",
-    "inverse": "C15_inverse, C15_scaled_operand_range",
+    "inverse": "C15_inverse, C15_scaled_operand_range, C15_rejects_field_not_complex",
     "norm": "C15_norm",
 }
 REQUIRED_THEOREMS = sorted({t.strip() for v in THEOREMS.values() for t in v.split(",")} | {"C15_dec_ops", "C15_dec_sums"})
@@ -297,6 +299,10 @@ def canon(r):
     """canonical form of an implementation return value"""
     if r is None:
         return {"kind": "none"}
+    if isinstance(r, (bool, int, float)):   # a Python number is as good as a 0-d tensor (the property constrains the value only)
+        return {"shape": [], "data": [float(r)], "dtype": "f64"}
+    if isinstance(r, complex):
+        r = np.complex128(r)
     if isinstance(r, (np.ndarray, np.generic)):  # cplx.numpy of a complex scalar gives a numpy scalar
         r = np.asarray(r)
         return {"shape": list(r.shape), "re": np.real(r).astype(np.float64).ravel().tolist(),
@@ -375,10 +381,14 @@ ELL = "..."
 def tokenize(sub):
     """subscripts of one operand as a list of labels (letters) and ELL; None when torch rejects the string itself
     (a '.' that is not part of '...', a character that is not a letter)"""
-    sub = sub.replace(" ", "")
+    # torch skips blanks BETWEEN tokens only: the three dots of an ellipsis must be adjacent (". . .j,j" is rejected: "found '.'
+    # ... that is not part of any ellipsis"), a tab is an invalid subscript (final pass, audit item C15-6: the blanks used to be
+    # removed first, so model and oracle accepted such strings)
     toks, i = [], 0
     while i < len(sub):
-        if sub[i] == ".":
+        if sub[i] == " ":
+            i += 1
+        elif sub[i] == ".":
             if sub[i:i + 3] != "...":
                 return None
             toks.append(ELL)
@@ -571,7 +581,10 @@ def oracle_value(case):
         if fn == "real":
             return ("r", a[0])
         return ("r", a[1]) if fn == "imag" else ("c", a[0] + 1j * a[1])
-    # from here on operands are complex tensors; malformed leading axes are not generated except for the accessors
+    if fn in ("conj", "conjugate", "absolute_value", "inverse", "norm", "norm_sqr") and not cplx_ok(sx):
+        # a tensor without an imaginary plane (0-d, leading axis 1) is not a complex tensor: rejected (final pass, C15-5)
+        return ("err", "IndexError")
+    # from here on operands are complex tensors; malformed leading axes are generated for the accessors and the unary functions only
     if fn in ("scalar_mult", "elementwise_mult"):
         if fn == "scalar_mult" and case.get("out") in ("x", "y"):
             # `out is x or out is y` is tested on the caller's objects, before y = y.to(x): whatever the dtypes
@@ -759,13 +772,96 @@ def alias_buffer(arena, case, x, y):
     return base[start:start + numel(os_)].view(os_)
 
 
-def call_fn(case, fn, x, y, out):
-    if fn == "make_complex":
-        return cplx.make_complex(x, y)
+# ------------------------------------------------------------------ call forms (final pass, audit item C15-1)
+# HOW the options of a call are handed over is a pure function of the case's "fseed" (stored in the case: a replay hands over the
+# same objects in the same positions; a case without it - the corpus of earlier rounds - is called as before: Python singletons by
+# keyword).  einsum: real_part / imag_part as every kind of object callers pass for a `bool` (qc.FLAG_FORMS: True/False, 1/0,
+# numpy.bool_, the result of a numpy comparison, 0-dim bool array, 0-dim torch.bool tensor), positionally (real_part alone or both)
+# with probability 1/2, by keyword in either order, a True one left to its default; scalar_mult: out= positionally with probability
+# 1/2, out=None passed or left out; make_complex / sigmoid: second operand positionally or by its documented name.
+EINSUM_STYLES = ("kw", "kw_rev", "pos_rp", "pos_both", "pos_both", "pos_rp")
+
+
+def call_form(case):
+    """JSON-able description of the call form of this case (None: the plain form of the earlier rounds)"""
+    fseed = case.get("fseed")
+    fn = case["fn"]
+    if fseed is None or fn not in ("einsum", "scalar_mult", "make_complex", "sigmoid"):
+        return None
+    import random
+    r = random.Random(fseed)
+    if fn == "einsum":
+        fl = qc.Flags(fseed)
+        _, rpd = fl(case["rp"])
+        _, ipd = fl(case["ip"])
+        style = r.choice(EINSUM_STYLES)
+        cf = {"style": style, "rp": {"form": rpd["form"], "value": rpd["value"]}, "ip": {"form": ipd["form"], "value": ipd["value"]},
+              "omit_rp": False, "omit_ip": False, "kw_operands": False}
+        # a default (True) may be left out: imag_part whenever it is not followed by anything (always), real_part only in keyword forms
+        if case["ip"] and r.random() < 0.3:
+            cf["omit_ip"] = True
+        if case["rp"] and style in ("kw", "kw_rev") and r.random() < 0.3:
+            cf["omit_rp"] = True
+        if style in ("kw", "kw_rev") and r.random() < 0.15:
+            cf["kw_operands"] = True     # the documented names `equation`, `a`, `b`
+        return cf
     if fn == "scalar_mult":
+        if case.get("out") is None:
+            return {"style": r.choice(["omit", "omit", "kw_none", "pos_none"])}
+        return {"style": r.choice(["pos", "kw"])}
+    if fn == "make_complex":
+        if case.get("y") is None:
+            return {"style": r.choice(["omit", "omit", "kw_none", "pos_none"])}
+        return {"style": r.choice(["pos", "pos", "kw_y", "kw_xy"])}
+    return {"style": r.choice(["pos", "pos", "kw_y", "kw_xy"])}
+
+
+def call_objects(case):
+    """the call form with the option OBJECTS built (once per case: the history dimension re-uses them for both calls)"""
+    cf = call_form(case)
+    if cf is not None and case["fn"] == "einsum":
+        cf = dict(cf, rp_obj=qc.flag_value(cf["rp"]), ip_obj=qc.flag_value(cf["ip"]))
+    return cf
+
+
+def call_fn(case, fn, x, y, out, cf=None):
+    st = (cf or {}).get("style")
+    if fn == "make_complex":
+        if st == "omit":
+            return cplx.make_complex(x)
+        if st in ("kw_none", "kw_y"):
+            return cplx.make_complex(x, y=y)
+        if st == "kw_xy":
+            return cplx.make_complex(y=y, x=x)
+        return cplx.make_complex(x, y)
+    if fn == "sigmoid":
+        if st == "kw_y":
+            return cplx.sigmoid(x, y=y)
+        if st == "kw_xy":
+            return cplx.sigmoid(y=y, x=x)
+        return cplx.sigmoid(x, y)
+    if fn == "scalar_mult":
+        if st == "omit":
+            return cplx.scalar_mult(x, y)
+        if st in ("pos", "pos_none"):
+            return cplx.scalar_mult(x, y, out)
         return cplx.scalar_mult(x, y, out=out)
     if fn == "einsum":
-        return cplx.einsum(case["eq"], x, y, real_part=case["rp"], imag_part=case["ip"])
+        if cf is None:
+            return cplx.einsum(case["eq"], x, y, real_part=case["rp"], imag_part=case["ip"])
+        rp, ip = cf["rp_obj"], cf["ip_obj"]
+        kw = {}
+        if not cf["omit_ip"]:
+            kw["imag_part"] = ip
+        if st == "pos_both" and not cf["omit_ip"]:
+            return cplx.einsum(case["eq"], x, y, rp, ip)
+        if st in ("pos_rp", "pos_both"):
+            return cplx.einsum(case["eq"], x, y, rp, **kw)
+        if not cf["omit_rp"]:
+            kw = {"real_part": rp, **kw} if st == "kw" else {**kw, "real_part": rp}
+        if cf["kw_operands"]:
+            return cplx.einsum(b=y, a=x, equation=case["eq"], **kw)
+        return cplx.einsum(case["eq"], x, y, **kw)
     if fn in ("real", "imag", "numpy", "conjugate", "conj", "norm_sqr", "absolute_value", "inverse", "norm"):
         return getattr(cplx, fn)(x)
     return getattr(cplx, fn)(x, y)
@@ -837,10 +933,11 @@ def _run_impl(case):
                 os_ = [2] + np_broadcast(case["x"]["shape"][1:], case["y"]["shape"][1:])
                 odt = torch.float32 if mode == "fresh32" else torch.double
             out = arena.tensor("out", np.full(os_, 7.0), odt, lays.get("out"), fill=7.0)
+        cf = call_objects(case)
         if prev:
             # HISTORY: a first call on the same objects with other data, then in-place re-parametrisation
             try:
-                r0 = call_fn(case, fn, x, y, out)
+                r0 = call_fn(case, fn, x, y, out, cf)
             except Exception:  # noqa: BLE001
                 r0 = None
             for role in ("x", "y"):
@@ -855,7 +952,7 @@ def _run_impl(case):
             img = MemImage(arena, [x, y, out])
             extra["mem"] = {"before": img.cells(), "x": img.view(x), "y": img.view(y), "out": img.view(out)}
         try:
-            r = call_fn(case, fn, x, y, out)
+            r = call_fn(case, fn, x, y, out, cf)
             if prev and r0 is not None and r0 is not out and fn not in ("real", "imag"):
                 scribble(r0)
             res = canon(r)
@@ -879,7 +976,7 @@ def _run_impl(case):
             else:
                 extra["out_noncontig"] = not it["view"].is_contiguous()
         return res, extra
-    except Exception as e:  # the error KIND is an observable of the property
+    except Exception as e:  # rejected; the KIND is kept for the counters only (the property constrains rejected / accepted, not the type)
         return {"error": type(e).__name__}, extra
 
 
@@ -937,7 +1034,10 @@ def run_model(ctx, case):
         elif case.get("y") is not None:
             req["y"] = tj(case["y"])
         if fn == "einsum":
-            req.update(eq=eq_to_json(case["eq"]), real_part=case["rp"], imag_part=case["ip"])
+            cf = call_form(case)
+            # the flag OBJECTS go to the model (QV.PyFlag via DriverLib.Flag.parseFlag; a plain bool = the Python singleton)
+            req.update(eq=eq_to_json(case["eq"]), real_part=cf["rp"] if cf else bool(case["rp"]),
+                       imag_part=cf["ip"] if cf else bool(case["ip"]))
     r = ctx.driver.call("c15.op", **req)
 
     def dec(vals):
@@ -959,8 +1059,12 @@ def run_model(ctx, case):
     return out, extra
 
 
+OUT_BUFFER_MODES = ("fresh", "fresh32", "shape", "alias")   # out= is an object of the caller's that is not an operand
+
+
 def result_dtype_expected(case):
-    """dtype of the returned tensor as the kernel defines it (`y.to(x)`: x's dtype; out= keeps the buffer's dtype)"""
+    """dtype of an accepted out= buffer (it is returned as it is); for calls without a buffer the kernel's own choice
+    (`y.to(x)`: x's dtype), which is NOT demanded by any point or oracle"""
     if case["fn"] == "scalar_mult" and case.get("out") in ("fresh", "fresh32"):
         return "f32" if case["out"] == "fresh32" else "f64"
     if case["fn"] == "scalar_mult" and case.get("out") == "shape":
@@ -1032,7 +1136,7 @@ EXTREME = ("extreme_large", "extreme_small", "extreme_mixed", "overflow_right")
 
 
 def sig_of(case, fn, what):
-    """stable signature; the EXTREME regimes (audit item C15-1 / finding F17) get one signature per function"""
+    """stable signature; the EXTREME regimes (audit item C15-1 / finding F17, fixed in /repo by 7038bfb) get one signature per function"""
     if case.get("regime") in EXTREME:
         return f"{fn}/extreme-range"
     if case.get("regime") in EDGE:
@@ -1076,6 +1180,14 @@ def one_case(ctx, case):
         ctx.count("history=second_call_after_inplace_update")
     if case.get("regime"):
         ctx.count(f"regime[{fn}]={case['regime']}")
+    cform = call_form(case)
+    if cform is not None:
+        ctx.count(f"call_form[{fn}]={cform['style']}")
+        if fn == "einsum":
+            ctx.count(f"flag_form[real_part]={'omitted' if cform['omit_rp'] else cform['rp']['form']}")
+            ctx.count(f"flag_form[imag_part]={'omitted' if cform['omit_ip'] else cform['ip']['form']}")
+            if cform["kw_operands"]:
+                ctx.count("call_form[einsum]=operands_by_keyword")
     sig = sig_of(case, fn, 'err' if is_err else 'value')
     th = THEOREMS.get(fn)
     with np.errstate(all="ignore"):
@@ -1096,7 +1208,13 @@ def one_case(ctx, case):
         elif nrm is not None and len(mvals) == len(nrm) == len(ivals):
             # relative to the magnitude of each entry, not to the largest entry of the tensor
             ni, nm_ = normalised(ivals, nrm, floor_of(case)), normalised(mvals, nrm, floor_of(case))
-            bad = [k for k in range(len(ni)) if not close(ni[k], nm_[k])]
+            # a Float model value that overflowed (inf / nan) where the implementation returns a finite number carries no verdict
+            # (the rule of Ctx.point, DESIGN 13.8: the theorems are about reals; a rewrite MORE stable than the modelled algorithm
+            # must not alarm - the independent exact-rational / numpy oracle below decides those entries)
+            skip = {k for k in range(len(ni)) if not math.isfinite(mvals[k]) and math.isfinite(ivals[k])}
+            if skip:
+                ctx.count("model_nonfinite_skipped(vpoint)")
+            bad = [k for k in range(len(ni)) if k not in skip and not close(ni[k], nm_[k])]
             if not bad:
                 ctx.point(name, "property", ni, nm_, case, scale=1.0, theorem=th, sig=sg)
             else:
@@ -1126,8 +1244,12 @@ def one_case(ctx, case):
         i_struct["error"] = i_struct["error"] is not None
         m_struct["error"] = m_struct["error"] is not None
         if fn == "scalar_mult":
-            i_struct["dtype"] = impl.get("dtype")
-            m_struct["dtype"] = model.get("dtype")
+            # result DTYPE: the property speaks of values and of rejection only, so the dtype of a NEW result tensor is not demanded
+            # (a rewrite that promotes mixed float32 / float64 operands to the wider type still returns the right value); the
+            # only dtype statement kept is the documented "overwrites `out`": an accepted out= buffer comes back with its own dtype
+            if case.get("out") in OUT_BUFFER_MODES:
+                i_struct["dtype"] = impl.get("dtype")
+                m_struct["dtype"] = model.get("dtype")
             i_struct["id"] = iextra.get("id")
             m_struct["id"] = mextra.get("id")
         ctx.point(f"{fn}.kind_shape", "property", i_struct, m_struct, case, exact=True, theorem=th, sig=sig + "/shape")
@@ -1208,9 +1330,13 @@ def one_case(ctx, case):
     against_oracle(impl, f"{fn} == complex arithmetic", sig_of(case, fn, "oracle"))
     if iextra.get("buffer") is not None:
         against_oracle(iextra["buffer"], f"{fn}: the out= buffer holds the product", f"{fn}/out-buffer-oracle")
-    if "dtype" in impl and fn in ("scalar_mult", "elementwise_mult", "matmul", "inner_prod"):
-        ctx.oracle(f"{fn} dtype", impl["dtype"] == result_dtype_expected(case), case,
-                   detail={"impl": impl["dtype"], "expected": result_dtype_expected(case)}, sig=f"{fn}/dtype")
+    if "dtype" in impl:
+        # informational only (final pass, audit item C15-4): the dtype of a newly created result is not part of the property
+        ctx.count(f"result_dtype[{fn}]={impl['dtype']}")
+        if fn == "scalar_mult" and case.get("out") in OUT_BUFFER_MODES:
+            ctx.oracle(f"{fn}: an accepted out= buffer keeps its dtype", impl["dtype"] == result_dtype_expected(case), case,
+                       detail={"impl": impl["dtype"], "expected": result_dtype_expected(case)}, sig=f"{fn}/out-dtype",
+                       theorem="C15_scalar_mult_out")
 
 
 # ------------------------------------------------------------------ generators
@@ -1834,6 +1960,80 @@ def gen_edge(ctx, n_scale):
         yield {"fn": "sigmoid", "num": num, "x": T(s, xs), "y": T(t, [im_val() for _ in range(numel(t))]), "regime": "edge_underflow"}
 
 
+POW2_UNITS = [(1, 0), (-1, 0), (0, 1), (0, -1), (2, 0), (0, -2), (1, 1), (1, -1), (-1, 1), (-1, -1), (2, 2), (-2, 2), (4, 0), (0, 4),
+              (0.5, 0), (0, -0.5), (0.5, 0.5), (0.25, -0.25)]   # |z|^2 a power of two: 1/z and i/z are exact in float32
+
+
+def pow2_cplx(rng, tshape, dtype="f64"):
+    n = numel(tshape)
+    zs = [rng.choice(POW2_UNITS) for _ in range(n)]
+    return T([2] + list(tshape), [float(z[0]) for z in zs] + [float(z[1]) for z in zs], dtype)
+
+
+def gen_const(ctx, n_scale):
+    """the library's own float32 constant `cplx.I` (a quantifier item) as an operand of EVERY function that takes a complex scalar
+    (final pass, audit item C15-3): einsum (either side, scalar subscripts / ellipsis), inner_prod on the left, the unary functions,
+    scalar_divide on both sides, elementwise_division on both sides.  Values and - through `I_intact` - that the constant is never
+    written.  Where the result is float32 (x = cplx.I: `y.to(x)`) the partner's entries have |z|^2 a power of two, so that every
+    intermediate and the quotient are exact in float32 and the usual tolerances apply."""
+    rng = ctx.rng
+    R = lambda k: range(max(1, int(k * n_scale)))  # noqa: E731
+    num = "int"
+    for _ in R(70):
+        side = rng.choice(["x", "y"])
+        if side == "x":
+            eq, k = rng.choice([(",a->a", 1), (",ab->ba", 2), (",->", 0), (",a", 1), (",ab", 2), ("...,...", None), (",...->...", None),
+                                (",aa->a", "sq"), (",a->", 1)])
+        else:
+            eq, k = rng.choice([("a,->a", 1), ("ab,->ab", 2), (",->", 0), ("a,", 1), ("ba,", 2), ("...,...", None), ("...,->...", None),
+                                ("ab,->b", 2), ("a...,->...a", "ge1")])
+        if k is None:
+            s = rand_shape(rng)
+        elif k == "sq":
+            d = rng.choice(DIMS)
+            s = [d, d]
+        elif k == "ge1":
+            s = rand_shape(rng, rank=rng.randint(1, 3))
+        else:
+            s = [rng.choice(DIMS) for _ in range(k)]
+        z = rand_cplx(rng, s, num)
+        rp, ip = rng.choice([(True, True), (True, True), (True, False), (False, True), (False, False)])
+        ctx.count(f"cplx.I_operand=einsum[{side}]")
+        yield {"fn": "einsum", "num": num, "eq": eq, "x": dict(I_T) if side == "x" else z, "y": z if side == "x" else dict(I_T),
+               "useI": side, "rp": rp, "ip": ip}
+    for _ in R(60):
+        fn = rng.choice(["conj", "conjugate", "norm_sqr", "real", "imag", "numpy", "inner_prod", "scalar_mult", "elementwise_mult"])
+        ctx.count(f"cplx.I_operand={fn}")
+        if fn == "inner_prod":
+            yield {"fn": fn, "num": num, "x": dict(I_T), "y": rand_cplx(rng, [], num), "useI": "x"}
+        elif fn in ("scalar_mult", "elementwise_mult"):
+            # the constant as BOTH operands (the same object twice)
+            c = {"fn": fn, "num": num, "x": dict(I_T), "y": dict(I_T), "same": True, "useI": "x"}
+            if fn == "scalar_mult":
+                c["out"] = rng.choice([None, "fresh", "fresh32"])
+            yield c
+        else:
+            yield {"fn": fn, "num": num, "x": dict(I_T), "useI": "x"}
+    num = "float"
+    for _ in R(70):
+        fn = rng.choice(["scalar_divide", "scalar_divide", "elementwise_division", "inverse", "absolute_value", "norm"])
+        side = rng.choice(["x", "y"])
+        ctx.count(f"cplx.I_operand={fn}" + (f"[{side}]" if fn in ("scalar_divide", "elementwise_division") else ""))
+        if fn in ("inverse", "absolute_value", "norm"):
+            yield {"fn": fn, "num": num, "x": dict(I_T), "useI": "x"}
+        elif fn == "scalar_divide":
+            s = rand_shape(rng)
+            if side == "y":
+                yield {"fn": fn, "num": num, "x": rand_cplx(rng, s, num, rng.choice([0.1, 1.0, 10.0])), "y": dict(I_T), "useI": "y"}
+            else:
+                yield {"fn": fn, "num": num, "x": dict(I_T), "y": pow2_cplx(rng, s), "useI": "x"}
+        else:
+            if side == "y":
+                yield {"fn": fn, "num": num, "x": rand_cplx(rng, [], num), "y": dict(I_T), "useI": "y"}
+            else:
+                yield {"fn": fn, "num": num, "x": dict(I_T), "y": pow2_cplx(rng, []), "useI": "x"}
+
+
 def gen_alias(ctx, n_scale):
     """out= buffers that are DIFFERENT objects sharing storage with an operand (x[...], view_as, detach, .data, an overlapping
     window of the same 1-D storage): accepted, and the returned value is the product of the operands as they were (fix 96aa40c)"""
@@ -1872,6 +2072,8 @@ def decorate(ctx, case):
     fn = case["fn"]
     num = case["num"]
     lay = {}
+    if fn in ("einsum", "scalar_mult", "make_complex", "sigmoid"):
+        case["fseed"] = rng.randrange(2 ** 31)     # seed of the call form (see `call_form`)
     if fn == "make_complex_np":
         l = rand_layout(rng, case["shape"], allow_expand=False, p_plain=0.6)
         if l:
@@ -2014,6 +2216,14 @@ def gen_malformed(ctx, n_scale):
         # accessors on tensors that are not complex tensors: 0-d, leading axis 1; leading axis 3 is accepted (extra planes ignored)
         s = rng.choice([[], [1], [1, 2], [3], [3, 2], [1, 1, 2]])
         yield {"fn": rng.choice(["real", "imag", "numpy"]), "num": num, "x": rand_real(rng, s, num)}
+    for _ in R(60):
+        # unary functions on tensors that are not complex tensors (0-d, leading axis 1), norm of a matrix / higher rank (final pass, C15-5)
+        fn = rng.choice(["conj", "conjugate", "absolute_value", "inverse", "norm", "norm_sqr"])
+        tnum = "float" if fn in FIELD_FNS else num
+        if fn == "norm" and rng.random() < 0.5:
+            yield {"fn": fn, "num": tnum, "x": rand_cplx(rng, rng.choice([[2, 2], [1, 3], [2, 1, 2]]), tnum)}
+        else:
+            yield {"fn": fn, "num": tnum, "x": rand_real(rng, rng.choice([[], [1], [1, 2], [1, 3], [1, 2, 2]]), tnum)}
     for _ in R(110):
         m, k, p = rng.randint(1, 3), rng.randint(2, 3), rng.randint(1, 3)
         form = rng.choice(["mm", "mv", "vv", "s_m", "m_s", "batch", "vm"])
@@ -2060,6 +2270,8 @@ def gen_malformed(ctx, n_scale):
             ("...i,i->......", [2, 2], [2]), ("ij,jk", [2, 2, 2], [2, 2]), ("ij,jk", [2], [2, 2]), ("i,i,i", [2], [2]),
             ("ij", [2, 2], [2, 2]), ("i1,1", [2, 3], [3]), ("ij,jk->ik->", [2, 2], [2, 2]), ("ii,i", [2, 3], [2]),
             ("...ii,i", [2, 2, 3], [2]), ("a...,a->...b", [2, 2], [2]), ("a...,a...->aa", [2, 2], [2, 2]), ("i,j->...ij...", [2], [2]),
+            # blanks inside an ellipsis / inside the arrow, a tab: the string itself is rejected
+            (". . .j,j", [2, 2], [2]), (".. .j,j", [2, 2], [2]), ("ij,j->. ..", [2, 2], [2]), ("ij,j - > i", [2, 2], [2]), ("ij ,\tj", [2, 2], [2]),
         ])
         yield {"fn": "einsum", "num": num, "eq": eq, "x": rand_cplx(rng, sa, num), "y": rand_cplx(rng, sb, num),
                "rp": rng.random() < 0.85, "ip": rng.random() < 0.85}
@@ -2077,7 +2289,7 @@ def gen_malformed(ctx, n_scale):
 
 
 def gen_all(ctx, n_scale):
-    for gen in (gen_exact, gen_alias, gen_tolerance, gen_ranges, gen_extreme, gen_edge, gen_malformed):
+    for gen in (gen_exact, gen_const, gen_alias, gen_tolerance, gen_ranges, gen_extreme, gen_edge, gen_malformed):
         for case in gen(ctx, n_scale):
             yield decorate(ctx, case)
 
